@@ -19,7 +19,7 @@ META = {
     'level_text': ('Seeded pairs (recorded program P, replayed program P\') where P\' is P or P after 1-3 behavioural edits '
                    '(changed output argument, dropped / added / swapped output call, raise instead of return); the '
                    'interpreter journals what the code sent before entering the decorated function, and the Playback must '
-                   'equal those journals entry for entry.  Sampled programs and edits: evidence, not proof. Also: two worker threads sending through one alias under the line-level scheduler (recording and replay), replaying recorders with a failed replay in their history, unserializable exceptions raised earlier in the process, and the recording as filled by the recorder (live objects, no serializer) compared with what was sent. Outputs whose result is optional in replay, and recording switched off midway (no recording may then claim the run).'),
+                   'equal those journals entry for entry.  Sampled programs and edits: evidence, not proof. Also: two worker threads sending through one alias under the line-level scheduler (recording and replay), replaying recorders with a failed replay in their history, unserializable exceptions raised earlier in the process, and the recording as filled by the recorder (live objects, no serializer) compared with what was sent. Outputs whose result is optional in replay, and recording switched off midway (no recording may then claim the run). Several functions registered under one output alias, called in any order.'),
     'level_note': 'Trusted: interpreter journal of sent outputs; faithful-domain guard. No schedule or fault dimension: the simulator contributes restart over three cassette types.',
     'rule': ('evaluation = one pair (P, P\') recorded and replayed over a real cassette; non-trivial = P\' made at least one '
              'output call and the replay completed; distinct = distinct event-log digest (programs, edits, both journals).'),
@@ -195,9 +195,78 @@ def threaded_same_alias(tape, clock):
     return run
 
 
+def shared_alias(tape, clock):
+    """Several functions are registered under ONE output alias (a subclass override re-registered under the base method's
+    alias, two transports of one logical sink): the calls of the operation are numbered per alias, one entry per call, in
+    call order, whichever function was called; the replay reproduces them and differs exactly at an edited call."""
+    run = Run(PROP)
+    run.probe('several_functions_under_one_output_alias')
+    run.nontrivial = True
+    n_funcs = 2 + tape.draw(2)
+    calls = [(tape.draw(n_funcs), ('v', i, tape.draw(4))) for i in range(1 + tape.draw(8))]
+    edit_at = tape.draw(len(calls) + 1) - 1      # -1: the replayed code is unchanged
+    store = C.gen_store(tape, clock)
+    run.say('%d functions under alias "sink", calls %s, replay edits call %s; cassette %s' % (n_funcs, calls, edit_at, store.describe()))
+    run.ev('case-shared-alias', n_funcs, calls, edit_at, store.describe())
+    try:
+        cas = store.open()
+        recorder = TapeRecorder(cas)
+        recorder.enable_recording()
+        state = {'edit': None, 'sent': []}
+
+        def make(k):
+            @recorder.static_intercept_output('sink')
+            def send(payload):
+                state['sent'].append((k, payload))
+                return None
+            return send
+        funcs = [make(k) for k in range(n_funcs)]
+
+        class SharedSink(object):
+            @recorder.operation()
+            def execute(self):
+                for i, (k, payload) in enumerate(calls):
+                    funcs[k](('edited', i) if state['edit'] == i else payload)
+                return len(calls)
+        R.D.register('SharedSink', SharedSink)
+        SharedSink().execute()
+        rid = cas.get_last_recording_id() if hasattr(cas, 'get_last_recording_id') else None
+        if rid is None:
+            rid = list(cas.iter_recording_ids('SharedSink'))[-1]
+        run.check(len(state['sent']) == len(calls), 'recorded_outputs_equal_sent', 'shared-alias:bodies-not-run-once',
+                  lambda: 'bodies ran %d times for %d calls' % (len(state['sent']), len(calls)))
+        want = dict(('output: sink #%d.output' % (i + 1), V.srepr({'args': [p], 'kwargs': {}})) for i, (k, p) in enumerate(calls))
+        for rnd in range(2):
+            state['edit'] = edit_at if rnd == 1 and edit_at >= 0 else None
+            pb = recorder.play(rid, lambda r_: SharedSink().execute())
+            rec_o = [(o.key, V.srepr(o.value)) for o in pb.recorded_outputs if 'sink' in o.key]
+            play_o = [(o.key, V.srepr(o.value)) for o in pb.playback_outputs if 'sink' in o.key]
+            run.ev('shared-alias-replay', rnd, rec_o, play_o)
+            run.check(dict(rec_o) == want and len(rec_o) == len(want), 'recorded_outputs_equal_sent', 'shared-alias:recorded-live-entries-differ',
+                      lambda: 'sent %s, recording holds %s' % (sorted(want.items()), sorted(rec_o)))
+            run.check(len(play_o) == len(set(k for k, v in play_o)), 'one_entry_per_call', 'shared-alias:duplicate-playback-entry',
+                      lambda: 'playback outputs hold a key twice: %s' % sorted(play_o))
+            want_play = dict(want)
+            if state['edit'] is not None:
+                want_play['output: sink #%d.output' % (edit_at + 1)] = V.srepr({'args': [('edited', edit_at)], 'kwargs': {}})
+            run.check(dict(play_o) == want_play and len(play_o) == len(want_play), 'playback_outputs_equal_sent', 'shared-alias:playback-entries-differ',
+                      lambda: 'replay sent %s, playback outputs hold %s' % (sorted(want_play.items()), sorted(play_o)))
+            diff = sorted(k for k in set(want_play) | set(dict(rec_o)) if want_play.get(k) != dict(rec_o).get(k))
+            exp_diff = ['output: sink #%d.output' % (edit_at + 1)] if state['edit'] is not None else []
+            got_diff = sorted(k for k in set(dict(play_o)) | set(dict(rec_o)) if dict(play_o).get(k) != dict(rec_o).get(k))
+            run.check(got_diff == exp_diff, 'difference_exactly_at_edits', 'shared-alias:difference-set',
+                      lambda: 'recorded and replayed outputs differ at %s, the edit is at %s' % (got_diff, exp_diff))
+    finally:
+        store.close()
+    return run
+
+
 def _run(tape, clock):
-    if tape.draw(8) == 7:
+    k_ = tape.draw(8)
+    if k_ == 7:
         return threaded_same_alias(tape, clock)
+    if k_ == 6:
+        return shared_alias(tape, clock)
     run = Run(PROP)
     V.set_flavour(tape)
     if tape.draw(6) == 5:
